@@ -13,8 +13,10 @@ transformer over an arbitrary world type `W`.  Theorems quantify over all `Prims
 `ast_list/tuple/set/dict`, `ast_joinedstr/ast_formattedvalue`, `ast_namedexpr`, `recurse_assign`, `ast_assign`,
 `ast_augassign`, `ast_delete`.  Each handler whose shape deviates from Python today is written in BOTH shapes,
 selected by one flag of `Cfg`; `Current.cfg` records what the code does now, `Cfg.python` is the language reference.
-Name binding is a flat store (scoping is C03's subject).  Comprehensions and lambda are not in this model
-(tied by correspondence only).
+Name binding is a flat store (scoping is C03's subject).  Comprehensions (`ast_listcomp` / `ast_setcomp` /
+`ast_dictcomp` with `listcomp_loop` / `setcomp_loop` / `dictcomp_loop`, `loopvar_scope_save` / `loopvar_scope_restore`)
+are part of the evaluator; `ast_generatorexp` does not exist in eval.py (NotImplementedError), lambda is compiled
+natively (not in this model).
 -/
 namespace PsModel.C01
 
@@ -68,9 +70,11 @@ structure Cfg where
   listTarget : Bool        -- recurse_assign unpacks into `[a, b]` targets
   uaddApplies : Bool       -- ast_unaryop_uadd applies `+`
   kwGroupMerge : Bool      -- ast_call evaluates a whole run of explicit keywords before merging it (duplicate → TypeError after)
+  compFresh : Bool         -- comprehension loop variables are UNBOUND until their generator binds them (Python's fresh scope);
+                           -- as coded they keep the enclosing scope's value until then (loopvar_scope_save only copies)
 deriving Repr, DecidableEq
 
-def Cfg.python : Cfg := ⟨true, true, true, true, true, true, true, true, true, true⟩
+def Cfg.python : Cfg := ⟨true, true, true, true, true, true, true, true, true, true, true⟩
 
 mutual
 inductive Expr where
@@ -90,6 +94,8 @@ inductive Expr where
   | dict (kvs : List DictArm)
   | fstr (parts : List FPart)
   | named (x : String) (e : Expr)
+  | comp (isSet : Bool) (elt : Expr) (gens : List Gen)          -- `[elt for …]` / `{elt for …}`
+  | dictcomp (k v : Expr) (gens : List Gen)                     -- `{k: v for …}`
 inductive CmpArm where
   | mk (op : Nat) (e : Expr)
 inductive Elt where
@@ -100,13 +106,15 @@ inductive DictArm where
   | kv (k v : Expr) | splat (e : Expr)
 inductive FPart where
   | lit (k : Nat) | fmt (e : Expr) (conv : Option Nat) (spec : Option Expr)
-end
-
+/-- one `for target in iter if c1 if c2 …` clause of a comprehension -/
+inductive Gen where
+  | mk (t : Target) (iter : Expr) (ifs : List Expr)
 inductive Target where
   | name (x : String)
   | sub (v i : Expr)
   | attr (v : Expr) (a : String)
   | tup (isList : Bool) (before : List Target) (star : Option String) (after : List Target)
+end
 
 inductive Stmt where
   | expr (e : Expr)
@@ -123,6 +131,50 @@ inductive Stmt where
 def Expr.isConst : Expr → Bool
   | .const _ => true
   | _ => false
+
+/-! ### comprehension scope on the flat store -/
+
+mutual
+/-- the names a target binds (`get_target_names`: Name nodes of tuple / list / starred targets) -/
+def Target.names : Target → List String
+  | .name x => [x]
+  | .sub _ _ => []
+  | .attr _ _ => []
+  | .tup _ before star after =>
+    Target.namesL before ++ ((match star with | some x => [x] | none => []) ++ Target.namesL after)
+def Target.namesL : List Target → List String
+  | [] => []
+  | t :: ts => t.names ++ Target.namesL ts
+end
+
+/-- `lvars` of `loopvar_scope_save`: the loop variables of all generators -/
+def gensNames : List Gen → List String
+  | [] => []
+  | .mk t _ _ :: gs => t.names ++ gensNames gs
+
+/-- the names in `U` are unbound -/
+def Store.hide (σ : Store) (U : List String) : Store := σ.filter (fun p => !U.contains p.1)
+
+/-- `loopvar_scope_restore(var_names, save_vars)`: a name that had an entry gets it back, the others are removed -/
+def Store.restore (σ saved : Store) : List String → Store
+  | [] => σ
+  | x :: r => Store.restore (match saved.get x with | some v => σ.set x v | none => σ.del x) saved r
+
+/-- what a comprehension loop appends per innermost pass: `(none, v)` an element, `(some k, v)` a dict item -/
+abbrev Item := Option Val × Val
+
+/-- `for loop_var in <values>: …` accumulating `out += …` / `out.update(…)` -/
+def iterM {W : Type} (body : Val → Store → W → R W (List Item × Store)) : List Val → Store → W → R W (List Item × Store)
+  | [], σ, w => (.ok ([], σ), w)
+  | v :: vs, σ, w => bind (body v σ w) fun a w => bind (iterM body vs a.2 w) fun r w => (.ok (a.1 ++ r.1, r.2), w)
+
+/-- the body of `listcomp_loop` / `setcomp_loop` / `dictcomp_loop` for one generator: `recurse_assign(gen.target,
+loop_var)`, then the `if` clauses left to right stopping at the first false one (`for cond … break / else`), then the
+element (last generator) or the loop of the remaining generators -/
+def genStep {W : Type} (asg : Val → Store → W → R W Store) (conds : Store → W → R W (Bool × Store))
+    (inner : Store → W → R W (List Item × Store)) (vals : List Val) : Store → W → R W (List Item × Store) :=
+  iterM (fun v σ w => bind (asg v σ w) fun σ1 w => bind (conds σ1 w) fun c w =>
+    if c.1 then inner c.2 w else (.ok ([], c.2), w)) vals
 
 section
 variable {W : Type} (cfg : Cfg) (P : Prims W)
@@ -200,6 +252,40 @@ def eval : Expr → Store → W → R W (Val × Store)
     bind (evalParts parts σ w) fun vs w => bind (P.join vs.1 w) fun r w => (.ok (r, vs.2), w)
   | .named x e, σ, w =>
     bind (eval e σ w) fun a w => (.ok (a.1, a.2.set x a.1), w)
+  -- `ast_listcomp` / `ast_setcomp`: loopvar_scope_save, the loop, loopvar_scope_restore (in `finally`: after an
+  -- exception the store of a straight-line program is not observable, so the error path carries none)
+  | .comp _ _ [], _, w => (.error .notImplemented, w)              -- not producible by the grammar
+  | .comp isSet elt (.mk t it ifs :: gs), σ, w =>
+    bind (eval it σ w) fun a w => bind (P.iter a.1 w) fun vals w =>
+    bind (genStep (fun v σ w => assign t v σ w) (fun σ w => evalConds ifs σ w)
+            (fun σ w => compGens (fun σ w => bind (eval elt σ w) fun e w => (.ok ([(none, e.1)], e.2), w)) gs σ w)
+            vals (if cfg.compFresh then a.2.hide (t.names ++ gensNames gs) else a.2) w) fun r w =>
+    bind (P.mkseq (if isSet then 2 else 0) (r.1.map (·.2)) w) fun v w =>
+    (.ok (v, Store.restore r.2 σ (t.names ++ gensNames gs)), w)
+  -- `ast_dictcomp`: the key is evaluated before the value
+  | .dictcomp _ _ [], _, w => (.error .notImplemented, w)
+  | .dictcomp k v (.mk t it ifs :: gs), σ, w =>
+    bind (eval it σ w) fun a w => bind (P.iter a.1 w) fun vals w =>
+    bind (genStep (fun v σ w => assign t v σ w) (fun σ w => evalConds ifs σ w)
+            (fun σ w => compGens (fun σ w => bind (eval k σ w) fun kv w => bind (eval v kv.2 w) fun e w =>
+                                     (.ok ([(some kv.1, e.1)], e.2), w)) gs σ w)
+            vals (if cfg.compFresh then a.2.hide (t.names ++ gensNames gs) else a.2) w) fun r w =>
+    bind (P.mkdict r.1 w) fun d w =>
+    (.ok (d, Store.restore r.2 σ (t.names ++ gensNames gs)), w)
+
+/-- the `if` clauses of one generator: left to right, stops at the first false one -/
+def evalConds : List Expr → Store → W → R W (Bool × Store)
+  | [], σ, w => (.ok (true, σ), w)
+  | c :: cs, σ, w =>
+    bind (eval c σ w) fun a w => if P.truth a.1 w then evalConds cs a.2 w else (.ok (false, a.2), w)
+
+/-- `listcomp_loop(generators[1:], elt)`: the remaining generators, innermost the element (`item`).  An inner
+iterable is evaluated anew on every pass of the outer loops, in the comprehension's scope. -/
+def compGens (item : Store → W → R W (List Item × Store)) : List Gen → Store → W → R W (List Item × Store)
+  | [], σ, w => item σ w
+  | .mk t it ifs :: gs, σ, w =>
+    bind (eval it σ w) fun a w => bind (P.iter a.1 w) fun vals w =>
+    genStep (fun v σ w => assign t v σ w) (fun σ w => evalConds ifs σ w) (fun σ w => compGens item gs σ w) vals a.2 w
 
 def evalOpt : Option Expr → Store → W → R W (Option Val × Store)
   | none, σ, w => (.ok (none, σ), w)
@@ -278,22 +364,19 @@ def evalParts : List FPart → Store → W → R W (List Val × Store)
     bind (eval e σ w) fun a w => bind (evalOpt spec a.2 w) fun s w =>
     bind (P.format a.1 (if cfg.fstrConversion then conv else none) s.1 w) fun v w =>
     bind (evalParts r s.2 w) fun vs w => (.ok (v :: vs.1, vs.2), w)
-end
 
-/-! ### assignment -/
-
-mutual
-/-- `recurse_assign(lhs, val)` -/
+/-- `recurse_assign(lhs, val)` (in the same recursion: comprehension generators assign their loop variables) -/
 def assign : Target → Val → Store → W → R W Store
   | .name x, v, σ, w => (.ok (σ.set x v), w)
   | .sub e i, v, σ, w =>
-    bind (eval cfg P e σ w) fun a w => bind (eval cfg P i a.2 w) fun b w =>
+    bind (eval e σ w) fun a w => bind (eval i a.2 w) fun b w =>
     bind (P.setitem a.1 b.1 v w) fun _ w => (.ok b.2, w)
   | .attr e a, v, σ, w =>
-    bind (eval cfg P e σ w) fun x w => bind (P.setattr x.1 a v w) fun _ w => (.ok x.2, w)
+    bind (eval e σ w) fun x w => bind (P.setattr x.1 a v w) fun _ w => (.ok x.2, w)
   | .tup isList before star after, v, σ, w =>
     if isList && !cfg.listTarget then (.error .notImplemented, w)       -- falls into the `else` branch of recurse_assign
     else
+      -- `vals = [*(iter(val))]`: ALL items are taken here, in the world BEFORE any target is stored to
       bind (P.iter v w) fun vals w =>
       let n := before.length + after.length
       match star with
@@ -393,9 +476,9 @@ end
 def Current.cfg : Cfg :=
   { dictKeyFirst := true, callArgsFirst := true, compareOnce := true, augTargetOnce := true,
     augInPlace := true, fstrConversion := true, dupKwCheck := true, listTarget := true, uaddApplies := true,
-    kwGroupMerge := true }
+      kwGroupMerge := true, compFresh := false }
 
 /-- the handlers as they were before the `fix:` commits (every flag off) – kept for the regression witnesses -/
-def Cfg.preFix : Cfg := ⟨false, false, false, false, false, false, false, false, false, false⟩
+def Cfg.preFix : Cfg := ⟨false, false, false, false, false, false, false, false, false, false, false⟩
 
 end PsModel.C01
